@@ -97,7 +97,10 @@ def gen(rng, scenario, tier):
             cfg["sd_hat"] = rng.choice([0.5, 1.0, 2.0])
             # on target, or off target by a few standard deviations (the statistic then moves inside the burn-in already)
             cfg["target"] = round(sum(xs[:20]) / 20 + rng.choice([0, 0, 1.5, -1.5, 3.0]) * cfg["sd_hat"], 2)
-    return {"cfg": cfg, "events": xs, "drift_positions": drifts}
+    case = {"cfg": cfg, "events": xs, "drift_positions": drifts}
+    if cfg["det"] == "ph":
+        case["df_every"] = rng.choice([1, 1, "alarm", "alarm", 7])
+    return case
 
 
 def build(cfg):
@@ -144,6 +147,15 @@ def run_ph(case, ctx):
             raise EndRun()
         if len(epoch) <= cfg["burn_in"] and got is not None:
             ctx.violation("burn_in", "C04:ph:alarm_in_burn_in", f"alarm at n={len(epoch)} <= burn_in; cfg={cfg}")
+        # the statistics accessor is read on the run's own schedule: after every update, every few updates, or only when an alarm
+        # sounds (a user who dumps the statistics at alarms) - what it reports must be the truth whenever it is asked
+        sched = case.get("df_every", 1)
+        if not (sched == 1 or (sched == "alarm" and (got == "drift" or t == len(case["events"]) - 1)) or (isinstance(sched, int) and t % sched == 0)):
+            ctx.obs(got, round(last["page_hinkley_differences"], 9))
+            if exp == "drift":
+                alarms += 1
+            prev = got
+            continue
         df = ctx.call("C04:ph:to_dataframe", det.to_dataframe)
         if len(df) != len(epoch):
             ctx.violation("stats", "C04:ph:stats_len",
@@ -157,7 +169,7 @@ def run_ph(case, ctx):
                           f"sample {t} (epoch {epoch_no}, n={len(epoch)}): detector reports difference {own_diff!r}, threshold {own_theta!r}, drift_detected={own_flag}, "
                           f"drift_state={got!r}: the documented test is difference > threshold after burn_in {cfg['burn_in']}; cfg={cfg}")
             raise EndRun()
-        check_rows = range(len(epoch)) if (exp == "drift" or t == len(case["events"]) - 1) else [len(epoch) - 1]
+        check_rows = range(len(epoch)) if (exp == "drift" or t == len(case["events"]) - 1 or sched != 1) else [len(epoch) - 1]
         for i in check_rows:
             for col in PH_COLS:
                 g = df[col].iloc[i]
